@@ -14,17 +14,19 @@ open KrroodVerif KrroodVerif.SG KrroodVerif.Drive.SG
 def showObs : Option (List (Fld × Obj × Obj) × List (Obj × Fld × Obj)) → String
   | none => "exc"
   | some (rels, flds) =>
+    -- field 9 is a strong reference that is no managed field (role taker of a role, item of a holder)
+    let flds := flds.filter (fun t => t.2.1 != 9 && t.2.1 != 4)
     "rels=" ++ show3 rels ++ " fields=" ++ showList ((sort3 flds).map fun t => s!"{t.1}.{t.2.1}={t.2.2}")
 
 def run (s : Sexp) : String :=
   match s with
   | .list (.atom "h" :: xs) =>
-    match parseOps xs with
+    match parseX xs with
     | some ops =>
-      let st := runD Quirks.asIs ops
+      let st := runXS schema Quirks.asIs (St.init lifo) ops
       let m := showObs st.relObs
-      let mr := showObs (runD Quirks.none ops).relObs
-      let sp := showObs (specRunD Quirks.asIs ops).relObs
+      let mr := showObs (runXS schema Quirks.none (St.init lifo) ops).relObs
+      let sp := showObs (specRunX schema Quirks.asIs ops).relObs
       let trig := joinTrig [(st.deadHit, "F-C14-2")]
       s!"model={m}\tspec={sp}\ttrig={trig}\tmodel_repaired={mr}"
     | none => "error=bad-case"
